@@ -39,6 +39,8 @@ pub struct Entry {
     pub prev_chain: BTreeSet<Actor>,
     /// commit epoch in which the last substantive change happened
     pub epoch: u32,
+    /// actors that changed only the white space / line ending of this line
+    pub ws_touchers: BTreeSet<Actor>,
 }
 
 #[derive(Clone, Debug, Default)]
@@ -94,6 +96,7 @@ impl Model {
                         last_was_pure_deletion: false,
                         prev_chain: BTreeSet::new(),
                         epoch: self.epoch,
+                        ws_touchers: BTreeSet::new(),
                     },
                 );
             }
@@ -507,6 +510,22 @@ pub fn apply_edit(fs: &mut FileState, model: &mut Model, who: Actor, edit: &Edit
             for (a, l) in fs.lines.iter().enumerate() {
                 if before.lines[a] != *l {
                     model.allow_also(l, who);
+                }
+            }
+        }
+    }
+    if edit.is_whitespace_only() {
+        let n = fs.lines.len();
+        for (a, l) in fs.lines.iter().enumerate() {
+            let touched = match edit {
+                Edit::FlipEol => true,
+                Edit::ToggleFinalNewline => a + 1 == n,
+                _ => before.lines.get(a) != Some(l),
+            };
+            if touched {
+                let k = key_of(l);
+                if let Some(e) = model.map.get_mut(&k) {
+                    e.ws_touchers.insert(who);
                 }
             }
         }
